@@ -209,7 +209,21 @@ func (g *XG) Int(depth int) (gast.Expr, IntInfo) {
 		return node, res
 	case "method":
 		g.feat("method")
-		switch g.pick(3, "int_method") {
+		switch g.pick(4, "int_method") {
+		case 3:
+			// a value-receiver method of the nested object type, reached as a struct value, through a pointer,
+			// through a slice of pointers or on a call result
+			g.feat("value_receiver_method")
+			recvs := []gast.Expr{gast.P(g.C.Recv, "Val"), gast.P(g.C.Recv, "Sub"), gast.P(g.C.Recv, "Subs").At(gast.I(int64(g.pick(SubsLen, "vm_idx"))))}
+			if g.C.Chains {
+				recvs = append(recvs, &gast.Call{Recv: g.recv(), Name: "Mk", Args: []gast.Expr{gast.I(int64(g.pick(5, "mk_arg")))}})
+			}
+			rc := recvs[g.pick(len(recvs), "vm_recv")]
+			if g.pick(2, "vm_which") == 0 {
+				return &gast.Call{Recv: rc, Name: "VSeven"}, IntInfo{Exact: true}
+			}
+			a, ai := g.Int(depth - 1)
+			return &gast.Call{Recv: rc, Name: "VTwice", Args: []gast.Expr{exactInt(a, ai)}}, IntInfo{Exact: true}
 		case 0:
 			a, ai := g.Int(depth - 1)
 			b, bi := g.Int(depth - 1)
@@ -244,7 +258,13 @@ func (g *XG) Int(depth int) (gast.Expr, IntInfo) {
 		return &gast.Call{Recv: g.recv(), Name: "GetH"}, IntInfo{Exact: true}
 	case "chain":
 		g.feat("chain")
-		k := gast.I(int64(g.pick(5, "mk_arg")))
+		var k gast.Expr = gast.I(int64(g.pick(5, "mk_arg")))
+		if g.pick(3, "mk_arg_computed") == 0 {
+			// the call's argument reads the facts: the call result changes when they do
+			a, ai := g.Int(depth - 1)
+			k = exactInt(a, ai)
+			g.feat("chain_on_call_with_computed_argument")
+		}
 		mkc := &gast.Call{Recv: g.recv(), Name: "Mk", Args: []gast.Expr{k}}
 		switch g.pick(3, "chain_kind") {
 		case 0:
